@@ -85,6 +85,9 @@ SEED = {
  "seedpatch-C04-e": ("C04", "/verif/seeded/C04-e/patch.diff"),
  "seedpatch-C01-d": ("C01", "/verif/seeded/C01-d/patch.diff"),
  "seedpatch-C03-e": ("C03", "/verif/seeded/C03-e/patch.diff"),
+ # round f (task-harness.md section 14)
+ "seedpatch-C05-f": ("C05", "/verif/seeded/C05-f/patch.diff"),
+ "seedpatch-C01-f": ("C01", "/verif/seeded/C01-f/patch.diff"),
 }
 ENV = dict(os.environ, GOFLAGS="-mod=mod", GOPROXY="off", GOSUMDB="off", GOTOOLCHAIN="local")
 BASE = "go test -vet=off -count=1 ./bint/... ./eth/... ./jrpc2/... ./shovel/config/... ./shovel/glf/... ./wctx/... ./wos/... ./wslog/..."
